@@ -56,6 +56,8 @@ Verdict ==
     [] Ev.k = "quad" -> QuadVerdict(Ev, Ev.c[1], Ev.c[2], Ev.c[3])
     [] Ev.k = "corr" -> CorrVerdict(Ev)
     [] Ev.k = "gen"  -> GenVerdict(Ev)
+    \* the same data in other units: same outcome class, same coefficient
+    [] Ev.k = "corr2" -> Viol("CORR_SCALE_INVARIANT", Ev.oc2 = Ev.oc /\ (Ev.oc = "ok" => Within(Ev.r2, Ev.r, Dec(1, 9))))
     [] OTHER -> {"UNKNOWN_KIND"}
 
 Init == TraceInit(0)
